@@ -145,6 +145,8 @@ def option_forwarding(ctx, rule, files):
 CONFUSABLE = [
     ("num_subsystems", "init_num_subsystems"),
     ("reg_refs", "init_reg_refs"),
+    # all subsystems that ever existed (reg_refs) vs. the live ones (register / num_subsystems)
+    ("reg_refs", "register", "num_subsystems"),
     ("unused_indices", "init_unused_indices"),
     ("circuit", "rolled_circuit", "unrolled_circuit", "space_unrolled_circuit"),
     ("timebins", "concurr_modes", "spatial_modes", "N"),
